@@ -53,6 +53,8 @@ class Controller:
         'pool'   outcome of a thread-pool wait
         'rdkit'  outcome of an RDKit search call
         'land'   number of pending zombie writes that land at a scheduling point
+        'poolnew' a ThreadPool whose worker thread can not be started
+        'pfail'  a joblib.Parallel call that fails as a whole (a worker process died)
     deviations: {point index: (label, alternative)}
     isolation: 'inline' | 'task' | 'chunk'
     fine_points: also treat calls of functions under <root>/synrbl as scheduling points
@@ -264,6 +266,9 @@ class ControlledParallel:
         call_no = ctl.count("parallel:" + site)
         label = "{}#{}[{}]".format(site, call_no, len(tasks))
         ctl.sched_point("parallel-begin:" + label)
+        # a worker of a process pool can die (OOM kill, TerminatedWorkerError): the call fails as a whole
+        if ctl.choose("pfail", label, 2) == 1:
+            raise RuntimeError("a worker process of this Parallel call terminated unexpectedly (injected)")
         menu = order_menu(len(tasks))
         order = menu[ctl.choose("order", label, len(menu))]
         iso = ctl.isolation
